@@ -17,51 +17,51 @@ var vhIntrinsics map[string]intrinsicFn
 
 func init() {
 	intrinsics = map[string]intrinsicFn{
-		"strconv.AppendInt":    intrAppendInt,
-		"strconv.AppendUint":   intrAppendUint,
-		"strconv.FormatInt":    intrFormatInt,
-		"strconv.FormatUint":   intrFormatUint,
-		"strconv.Itoa":         intrItoa,
-		"strconv.ParseUint":    intrParseUint,
-		"strconv.AppendFloat":  intrAppendFloat,
-		"strconv.ParseFloat":   intrParseFloat,
-		"strconv.cloneString":  intrIdentity,
-		"strconv.Quote":        intrOpaqueString,
-		"fmt.Sprintf":          intrSprintf,
-		"fmt.Fprintf":          intrFprintf,
-		"fmt.Errorf":           intrErrorf,
-		"fmt.Sprint":           intrOpaqueString,
-		"fmt.Sprintln":         intrOpaqueString,
-		"math.Float32frombits": intrIdentity,
-		"math.Float64frombits": intrIdentity,
-		"math.Float32bits":     intrIdentity,
-		"math.Float64bits":     intrIdentity,
-		"strings.genSplit":     intrGenSplit,
-		"strings.ToLower":      intrToLower,
-		"strings.TrimSpace":    intrTrimSpace,
-		"strings.Join":         intrJoin,
-		"strings.IndexByte":    intrIndexByteStr,
-		"strings.Index":        intrIndexStr,
-		"strings.Contains":     intrContainsStr,
-		"strings.HasPrefix":    nil,
-		"bytes.IndexByte":      intrIndexByteBytes,
-		"bytes.TrimRight":      intrTrimRight,
-		"bytes.Compare":        intrBytesCompare,
-		"bytes.Equal":          intrBytesEqual,
-		"internal/bytealg.MakeNoZero": intrMakeNoZero,
+		"strconv.AppendInt":                intrAppendInt,
+		"strconv.AppendUint":               intrAppendUint,
+		"strconv.FormatInt":                intrFormatInt,
+		"strconv.FormatUint":               intrFormatUint,
+		"strconv.Itoa":                     intrItoa,
+		"strconv.ParseUint":                intrParseUint,
+		"strconv.AppendFloat":              intrAppendFloat,
+		"strconv.ParseFloat":               intrParseFloat,
+		"strconv.cloneString":              intrIdentity,
+		"strconv.Quote":                    intrOpaqueString,
+		"fmt.Sprintf":                      intrSprintf,
+		"fmt.Fprintf":                      intrFprintf,
+		"fmt.Errorf":                       intrErrorf,
+		"fmt.Sprint":                       intrOpaqueString,
+		"fmt.Sprintln":                     intrOpaqueString,
+		"math.Float32frombits":             intrIdentity,
+		"math.Float64frombits":             intrIdentity,
+		"math.Float32bits":                 intrIdentity,
+		"math.Float64bits":                 intrIdentity,
+		"strings.genSplit":                 intrGenSplit,
+		"strings.ToLower":                  intrToLower,
+		"strings.TrimSpace":                intrTrimSpace,
+		"strings.Join":                     intrJoin,
+		"strings.IndexByte":                intrIndexByteStr,
+		"strings.Index":                    intrIndexStr,
+		"strings.Contains":                 intrContainsStr,
+		"strings.HasPrefix":                nil,
+		"bytes.IndexByte":                  intrIndexByteBytes,
+		"bytes.TrimRight":                  intrTrimRight,
+		"bytes.Compare":                    intrBytesCompare,
+		"bytes.Equal":                      intrBytesEqual,
+		"internal/bytealg.MakeNoZero":      intrMakeNoZero,
 		"internal/bytealg.IndexByteString": intrIndexByteStr,
-		"internal/bytealg.IndexByte": intrIndexByteBytes,
-		"(*sync.Once).Do":            intrOnceDo,
-		"(*sync/atomic.Value).Store": intrAtomicValueStore,
-		"(*sync/atomic.Value).Load":  intrAtomicValueLoad,
-		"time.Unix":                  intrTimeUnix,
-		"(time.Time).Local":          intrTimeLocal,
-		"(time.Time).UTC":            intrTimeUTC,
-		"(time.Time).Date":           intrTimeDate,
-		"(time.Time).Clock":          intrTimeClock,
-		"(time.Time).String":         intrOpaqueString,
-		"encoding/hex.EncodeToString": nil,
-		"os.Getenv":                  intrOpaqueString,
+		"internal/bytealg.IndexByte":       intrIndexByteBytes,
+		"(*sync.Once).Do":                  intrOnceDo,
+		"(*sync/atomic.Value).Store":       intrAtomicValueStore,
+		"(*sync/atomic.Value).Load":        intrAtomicValueLoad,
+		"time.Unix":                        intrTimeUnix,
+		"(time.Time).Local":                intrTimeLocal,
+		"(time.Time).UTC":                  intrTimeUTC,
+		"(time.Time).Date":                 intrTimeDate,
+		"(time.Time).Clock":                intrTimeClock,
+		"(time.Time).String":               intrOpaqueString,
+		"encoding/hex.EncodeToString":      nil,
+		"os.Getenv":                        intrOpaqueString,
 	}
 	for k, v := range intrinsics {
 		if v == nil {
@@ -69,11 +69,11 @@ func init() {
 		}
 	}
 	vhIntrinsics = map[string]intrinsicFn{
-		"vhU8":   func(e *Exec, _ *Frame, _ *ssa.Function, _ []Value) Value { return e.newVar(8, "v") },
-		"vhU16":  func(e *Exec, _ *Frame, _ *ssa.Function, _ []Value) Value { return e.newVar(16, "v") },
-		"vhU32":  func(e *Exec, _ *Frame, _ *ssa.Function, _ []Value) Value { return e.newVar(32, "v") },
-		"vhU64":  func(e *Exec, _ *Frame, _ *ssa.Function, _ []Value) Value { return e.newVar(64, "v") },
-		"vhI64":  func(e *Exec, _ *Frame, _ *ssa.Function, _ []Value) Value { return e.newVar(64, "v") },
+		"vhU8":  func(e *Exec, _ *Frame, _ *ssa.Function, _ []Value) Value { return e.newVar(8, "v") },
+		"vhU16": func(e *Exec, _ *Frame, _ *ssa.Function, _ []Value) Value { return e.newVar(16, "v") },
+		"vhU32": func(e *Exec, _ *Frame, _ *ssa.Function, _ []Value) Value { return e.newVar(32, "v") },
+		"vhU64": func(e *Exec, _ *Frame, _ *ssa.Function, _ []Value) Value { return e.newVar(64, "v") },
+		"vhI64": func(e *Exec, _ *Frame, _ *ssa.Function, _ []Value) Value { return e.newVar(64, "v") },
 		"vhBool": func(e *Exec, _ *Frame, _ *ssa.Function, _ []Value) Value {
 			v := e.newVar(8, "v")
 			return e.ctx.BNot(e.ctx.Eq(e.ctx.Extract(v, 0, 0), e.ctx.Const(1, 0)))
@@ -305,14 +305,24 @@ func intrParseUint(e *Exec, caller *Frame, fn *ssa.Function, args []Value) Value
 		n := int(s.n.c)
 		var v *Term
 		ok := true
-		for i := 0; i < n && ok; i++ {
-			cell, isT := s.b.cells[int(s.off.c)+i].(*Term)
+		// leading constant zeros (padding) do not change the value
+		lead := 0
+		for lead < n-1 {
+			cell, isT := s.b.cells[int(s.off.c)+lead].(*Term)
+			if !isT || !cell.IsConst() || cell.c != '0' {
+				break
+			}
+			lead++
+		}
+		nd := n - lead
+		for i := 0; i < nd && ok; i++ {
+			cell, isT := s.b.cells[int(s.off.c)+lead+i].(*Term)
 			if !isT {
 				ok = false
 				break
 			}
 			di, has := e.ctx.digit[cell]
-			if !has || di.n != n || di.k != n-1-i || (v != nil && di.v != v) {
+			if !has || di.n != nd || di.k != nd-1-i || (v != nil && di.v != v) {
 				ok = false
 				break
 			}
@@ -369,6 +379,10 @@ func intrParseFloat(e *Exec, _ *Frame, fn *ssa.Function, args []Value) Value {
 		e.unsupported("ParseFloat on text not produced by AppendFloat")
 	}
 	ft := s.b.flt
+	if ft.bits.op == OUF && ft.bits.name == "f32to64" && (bs.c == 32 || bs.c == 64) && ft.prec == -1 {
+		// the value is exactly a float32: shortest text for either size parses back to it
+		return TupleV{ft.bits, IfaceV{}}
+	}
 	if ft.prec != -1 {
 		e.unsupported("ParseFloat of non-shortest float text")
 	}
@@ -491,7 +505,7 @@ func (e *Exec) fmtArg(caller *Frame, sp fmtSpec, arg IfaceV) ([]*Term, bool) {
 	// Stringer / error for %v %s
 	if sp.verb == 'v' || sp.verb == 's' {
 		for _, mname := range []string{"Error", "String"} {
-			if m := e.P.prog.LookupMethod(arg.t, nil, mname); m != nil {
+			if m := e.findMethod(arg.t, mname); m != nil {
 				sig := m.Signature
 				if sig.Params().Len() == 0 && sig.Results().Len() == 1 && isStringType(sig.Results().At(0).Type()) {
 					r := e.call(caller, m, []Value{arg.v})
@@ -611,7 +625,7 @@ func intrFprintf(e *Exec, caller *Frame, fn *ssa.Function, args []Value) Value {
 	if w.t == nil {
 		e.rtPanic("nil", "Fprintf to nil writer")
 	}
-	m := e.P.prog.LookupMethod(w.t, nil, "Write")
+	m := e.findMethod(w.t, "Write")
 	if m == nil {
 		e.unsupported("Fprintf: no Write method on %v", w.t)
 	}
@@ -640,6 +654,12 @@ func (e *Exec) indexByte(s SliceV, ch *Term) *Term {
 		if ch.IsConst() && (ch.c == 'e' || ch.c == 'E') {
 			f := s.b.flt.fmtc
 			if f == 'f' {
+				return e.i64(-1)
+			}
+			if (f == 'e' || f == 'E') && byte(ch.c) == f {
+				return e.i64(1)
+			}
+			if f == 'e' || f == 'E' {
 				return e.i64(-1)
 			}
 		}
@@ -914,3 +934,12 @@ func intrTimeClock(e *Exec, _ *Frame, _ *ssa.Function, args []Value) Value {
 
 var _ = math.MaxInt64
 var _ = strings.Contains
+
+// findMethod looks up an exported method of a dynamic type (nil if absent).
+func (e *Exec) findMethod(t types.Type, name string) *ssa.Function {
+	sel := e.P.prog.MethodSets.MethodSet(t).Lookup(nil, name)
+	if sel == nil {
+		return nil
+	}
+	return e.P.prog.MethodValue(sel)
+}
